@@ -173,12 +173,12 @@ fn c10_to_i128_full_domain() {
     let fits = limbs[2] == 0 && limbs[3] == 0 && limbs[1] < (1u64 << 63);
     match r {
         Ok(x) => {
-            assert!(fits, "OBL C10.amount_above_i128_max_rejected: amounts above 2^127-1 never decode");
-            assert!(x >= 0 && (x as u128) == ((limbs[1] as u128) << 64 | limbs[0] as u128), "OBL C10.amount_value_exact");
+            soroban_sdk::obl!(fits, "OBL C10.amount_above_i128_max_rejected: amounts above 2^127-1 never decode");
+            soroban_sdk::obl!(x >= 0 && (x as u128) == ((limbs[1] as u128) << 64 | limbs[0] as u128), "OBL C10.amount_value_exact");
             kani::cover!(x == i128::MAX, "COVER to_i128 max");
         }
         Err(e) => {
-            assert!(!fits && e == ContractError::InvalidAmount, "OBL C10.amount_in_range_accepted: every amount in 0..=2^127-1 decodes");
+            soroban_sdk::obl!(!fits && e == ContractError::InvalidAmount, "OBL C10.amount_in_range_accepted: every amount in 0..=2^127-1 decodes");
             kani::cover!(limbs[1] == (1u64 << 63) && limbs[2] == 0 && limbs[3] == 0 && limbs[0] == 0, "COVER to_i128 2^127 rejected");
         }
     }
@@ -187,7 +187,7 @@ fn c10_to_i128_full_domain() {
 /// the numeric tag the encoders write for each message kind
 #[kani::proof]
 fn c10_message_type_tags() {
-    assert!(
+    soroban_sdk::obl!(
         <U256 as From<MessageType>>::from(MessageType::InterchainTransfer) == U256::from(0u8)
             && <U256 as From<MessageType>>::from(MessageType::DeployInterchainToken) == U256::from(1u8)
             && <U256 as From<MessageType>>::from(MessageType::DeployTokenManager) == U256::from(2u8)
@@ -204,9 +204,9 @@ fn optional_bytes_case(some: bool, n: usize) {
     let content: [u8; 2] = [kani::any(), kani::any()];
     let input: Option<Bytes> = if some { Some(Bytes::from_slice(&env, &content[..n])) } else { None };
     let v = into_vec(input.clone());
-    assert!(v.len() == if some { n } else { 0 } && (n < 1 || !some || v[0] == content[0]) && (n < 2 || !some || v[1] == content[1]), "OBL C10.optional_bytes_encode: an absent field is written as the empty byte string, a present one verbatim");
+    soroban_sdk::obl!(v.len() == if some { n } else { 0 } && (n < 1 || !some || v[0] == content[0]) && (n < 2 || !some || v[1] == content[1]), "OBL C10.optional_bytes_encode: an absent field is written as the empty byte string, a present one verbatim");
     let back = from_vec(&env, &v);
-    assert!(
+    soroban_sdk::obl!(
         match (&input, &back) {
             (Some(b), Some(c)) => n > 0 && b == c,
             (Some(_), None) => n == 0,
@@ -252,13 +252,13 @@ fn c10_get_message_type_head() {
         i += 1;
     }
     if r.is_err() {
-        assert!(!(zeros && head[31] < 5), "OBL C10.canonical_tag_accepted: every canonically padded tag 0..=4 decodes");
+        soroban_sdk::obl!(!(zeros && head[31] < 5), "OBL C10.canonical_tag_accepted: every canonically padded tag 0..=4 decodes");
         kani::cover!(zeros && head[31] == 5, "COVER gmt unsupported type rejected");
         kani::cover!(!zeros && head[31] < 5, "COVER gmt dirty padding rejected");
     }
     if let Ok(t) = r {
-        assert!(zeros && head[31] < 5, "OBL C10.tag_padding_and_range: a message type decodes only from a canonically padded word with tag 0..=4 (malformed padding and unsupported types are rejected)");
-        assert!(<U256 as From<MessageType>>::from(t) == U256::from(head[31]), "OBL C10.tag_value_exact");
+        soroban_sdk::obl!(zeros && head[31] < 5, "OBL C10.tag_padding_and_range: a message type decodes only from a canonically padded word with tag 0..=4 (malformed padding and unsupported types are rejected)");
+        soroban_sdk::obl!(<U256 as From<MessageType>>::from(t) == U256::from(head[31]), "OBL C10.tag_value_exact");
         kani::cover!(head[31] == 4, "COVER gmt receive from hub");
     }
 }
@@ -269,7 +269,7 @@ fn c10_get_message_type_short() {
     let n: usize = kani::any();
     kani::assume(n <= 31);
     let r = get_message_type(&buf[..n]);
-    assert!(matches!(r, Err(ContractError::InsufficientMessageLength)), "OBL C10.short_payload_rejected");
+    soroban_sdk::obl!(matches!(r, Err(ContractError::InsufficientMessageLength)), "OBL C10.short_payload_rejected");
     kani::cover!(n == 31, "COVER gmt 31 bytes");
 }
 
